@@ -287,7 +287,8 @@ def _nonempty_before(f, call, sccs):
             continue
         ok_any = True
         conds = set(f.conds_at(p)) | set(f.edge_conds(p).get(b, ()))
-        if not any(c[0] == "variant" and c[3] == "Some" and "front(" in _src(f, c[1])
+        if not any(c[0] == "variant" and c[3] == "Some" and
+                   ("front(" in _src(f, c[1]) or "::last(" in _src(f, c[1]))
                    for c in conds):
             return False
     return ok_any
